@@ -559,7 +559,8 @@ func init() {
 							case strings.HasSuffix(pth, "getBucketStartRange({uint64})#1"):
 								return "HI"
 							}
-							return ""
+							// the range computed in place (a helper shared with getBucketStartRange was expanded here)
+							return boundAlternatives(splitPhiCases(v, nil, nil, 0), nil)
 						}
 						if strings.HasPrefix(fn.Synthetic, "bound method wrapper") && len(mc.Bindings) == 1 {
 							// `window.contains` with window := rangeType{start, end}: the predicate is the method, its receiver's
@@ -571,18 +572,16 @@ func init() {
 								}
 							}
 							fieldVals := map[int]ssa.Value{}
+							fieldAlts := map[int][]retCase{} // a range struct computed by a helper with several returns
 							if ld, ok := mc.Bindings[0].(*ssa.UnOp); ok && ld.Op == token.MUL {
 								if al, ok := ld.X.(*ssa.Alloc); ok {
-									for _, r := range refsOf(al) {
-										if fa, ok := r.(*ssa.FieldAddr); ok {
-											for _, r2 := range refsOf(fa) {
-												if st, ok := r2.(*ssa.Store); ok && st.Addr == ssa.Value(fa) {
-													if _, dup := fieldVals[fa.Field]; dup {
-														fieldVals[fa.Field] = nil
-													} else {
-														fieldVals[fa.Field] = st.Val
-													}
-												}
+									if st, ok := al.Type().(*types.Pointer).Elem().Underlying().(*types.Struct); ok {
+										for k := 0; k < st.NumFields(); k++ {
+											cs := structFieldCasesOfAlloc(al, k, 0)
+											if len(cs) == 1 {
+												fieldVals[k] = cs[0].val
+											} else if len(cs) > 1 {
+												fieldAlts[k] = cs
 											}
 										}
 									}
@@ -604,6 +603,9 @@ func init() {
 									if v != nil {
 										names[k] = boundName(v)
 									}
+								}
+								for k, alts := range fieldAlts {
+									names[k] = boundAlternatives(alts, &binds)
 								}
 								recv := ssa.Value(target.Params[0])
 								eachInstr(target, func(ins ssa.Instruction) {
@@ -997,4 +999,39 @@ func init() {
 			}
 		},
 	})
+}
+
+// boundAlternatives names a bound of the window range by what it is when the range is computed on the spot: "HI" when
+// every alternative is the start of the bucket `now` falls into (calculateStartTime(now, bucket length of the array)),
+// "LO" when every alternative is 0 (clock smaller than one interval) or that start plus one bucket length minus the
+// view's interval.
+func boundAlternatives(alts []retCase, binds *[]string) string {
+	const hiPath = "core/stat/base.calculateStartTime({uint64},{SlidingWindowMetric}.real.BucketLengthInMs())"
+	if len(alts) == 0 {
+		return ""
+	}
+	allHi, allLo := true, true
+	for _, a := range alts {
+		p := accessPath(a.val)
+		if binds != nil {
+			*binds = append(*binds, p)
+		}
+		if p != hiPath {
+			allHi = false
+		}
+		isZero := false
+		if k, ok := constInt(stripConv(a.val)); ok && k == 0 {
+			isZero = true
+		}
+		if !isZero && !(strings.Contains(p, hiPath) && strings.HasSuffix(p, " - uint64({SlidingWindowMetric}.intervalInMs))")) {
+			allLo = false
+		}
+	}
+	switch {
+	case allHi:
+		return "HI"
+	case allLo:
+		return "LO"
+	}
+	return ""
 }
